@@ -103,7 +103,7 @@ def nontrivial(line, tags):
 
 
 def min_classes(tier):
-    return {"unknown-type": 1000, "gv-split": 100, "abort": 80, "str": 250, "gv-tail-spill": 200, "null-id-unknown-role": 24}
+    return {"unknown-type": 1000, "gv-split": 100, "abort": 80, "str": 250, "gv-tail-spill": 200, "null-id-unknown-role": 24, "reply-then-empty-call": 60}
 
 
 def expected_req_output(wire, maxc):
@@ -157,8 +157,26 @@ def huge_skip_replies_case(rng, P, pad, sched):
     return case("req_run", [rng.choice([70000, 131072])], [rng.choice([1, 77])], w, sched), ["req", "huge-skip"]
 
 
+def reply_then_empty_call_case(rng):
+    """every read ends exactly at a record boundary and is followed by a parse call WITHOUT new input (a zero-length read, a spurious
+    wake-up): a reply produced by one call must not be handed out again by the next"""
+    rid = rng.choice([1, 9])
+    junk = [record(GETVALUES, 0, gv_body(rng), rng.choice([0, 3])), record(rng.choice([12, 99, 200]), rng.choice([0, rid]), [1, 2, 3], rng.choice([0, 5])),
+            record(BEGIN, rid + 1, [0, 1, 0, 0, 0, 0, 0, 0], 0), record(BEGIN, rid + 2, [0, 9, 0, 0, 0, 0, 0, 0], rng.choice([0, 2]))]
+    rng.shuffle(junk)
+    pre = minimal_preamble(rid, 1, pairs=[(b"A", b"b")])
+    k = rng.randrange(0, len(junk) + 1)
+    recs = junk[:k] + pre[:1] + junk[k:] + pre[1:]
+    sched = []
+    for r in recs:
+        sched += [len(r)] + [0] * rng.choice([1, 1, 2])
+    return case("req_run", [rng.choice([64, 256])], [rng.choice([1, 77])], flat(recs), sched), ["req", "reply-then-empty-call"]
+
+
 def gen_cases(rng, tier):
     yield from _gen_cases_c04(rng, tier)
+    for _ in range(60 if tier == "quick" else 3000):
+        yield reply_then_empty_call_case(rng)
     for (P, pad) in ((65535, 255), (65281, 255), (65400, 200)):
         for sched in ([], [10 ** 6], [8 + P, 10 ** 6], [8 + P + pad // 2, 10 ** 6]):
             yield huge_skip_replies_case(rng, P, pad, sched)
